@@ -212,6 +212,18 @@ def leanchecker(modules: list[str]) -> tuple[bool, str]:
 # pvdrv client
 # ---------------------------------------------------------------------------------------------
 
+def load_timeout(text) -> bool:
+    """the transpiler gives its constexpr child process one second; under the load of parallel checks the child can miss it — an
+    artefact of the run, not of the code.  Recognised by the word, not by the exact message (the wording may change)."""
+    import re as _re
+    return bool(_re.search(r"(?i)time[d]?[ -]?out", str(text)))
+
+
+def load_timeout_result(*results) -> bool:
+    """the same, looking only at the error descriptions of compile results (never at emitted code or source text)"""
+    return any(isinstance(r, dict) and isinstance(r.get("error"), dict) and load_timeout(r["error"].get("description", "")) for r in results)
+
+
 class Driver:
     def __init__(self):
         if not PVDRV.exists():
